@@ -301,6 +301,15 @@ def r9_line_separator(cx):
     joins = [x for x in ast.walk(wr) if isinstance(x, ast.Call) and call_attr(x) == "join" and "_clean_content" in U(x)]
     ok = len(joins) == 1 and const_str(joins[0].func.value) == "\n"
     cx.require(ok, joins[0] if joins else wr, "the writer joins the cleaned lines with a single line feed", construct=short(joins[0]) if joins else "(no join)")
+    encs = [x for x in ast.walk(wr) if isinstance(x, ast.Call) and call_attr(x) == "encode"]
+    lossy = [x for x in encs if len(x.args) > 1 or any(k.arg == "errors" for k in x.keywords)]
+    cx.require(bool(encs) and not lossy, lossy[0] if lossy else wr, "the writer encodes strictly (an unencodable element fails and is persisted as an error; 'replace'/'ignore' would store different lines)",
+               construct=short(lossy[0]) if lossy else "; ".join(short(x) for x in encs))
+    dh = cx.repo.module(SD).func("Hydration.dehydrate", "C11.R9")
+    dumps = [x for x in ast.walk(dh) if isinstance(x, ast.Call) and call_attr(x) == "dump"]
+    na = [x for x in dumps if any(k.arg == "ensure_ascii" and U(k.value) != "True" for k in x.keywords)]
+    cx.require(bool(dumps) and not na, na[0] if na else dh, "the metadata document is written ASCII-safe (ensure_ascii left on: the file is opened with the locale's encoding)",
+               construct=short(na[0]) if na else "; ".join(short(x, 60) for x in dumps))
     ld = sf.func("TextFileProvider.load", "C11.R9")
     wide = [x for x in ast.walk(ld) if isinstance(x, ast.Call) and (call_attr(x) == "splitlines" or (call_attr(x) == "split" and not x.args))]
     per_line = [x for x in ast.walk(ld) if isinstance(x, ast.Call) and call_attr(x) == "rstrip" and [const_str(a) for a in x.args] == ["\n"]] + \
